@@ -726,6 +726,11 @@ fn http_mode(cases: &str, results: &str, wd: &Path) {
         alive &= o.status == Some(200);
     }
     println!("{}", json!({"cases": n, "topups": topups, "panics": panics, "hangs": hangs, "alive_at_end": alive}));
+    if a.hung || b.hung {
+        // a handler thread is blocked for ever inside the tower: dropping the runtime / the rig would wait for it
+        std::io::stdout().flush().unwrap();
+        std::process::exit(0);
+    }
 }
 
 // ---------------------------------------------------------------------------------------------------
